@@ -426,8 +426,7 @@ func ruleResetPipeline(c *core.Ctx) {
 	stop := callsTo(info, d.Decl.Body, named("stopPipeline"))
 	upd := callsTo(info, d.Decl.Body, named("UpdatePipeline"))
 	start := callsTo(info, d.Decl.Body, named("startPipeline"))
-	if len(stop) != 1 || len(upd) != 1 || len(start) != 1 {
-		c.Fail("DOM/reset", key+":shape", pos(c, d.Decl), "ResetPipeline no longer stops, updates and restarts the pipeline once each")
+	if !onceEach(c, d, "DOM/reset", key+":shape", "ResetPipeline no longer stops, updates and restarts the pipeline once each", "stopPipeline", "UpdatePipeline", "startPipeline") {
 		return
 	}
 	// stop before update when started, failure leaves
